@@ -187,6 +187,20 @@ func runC18(res *lib.Result, tier string, seed int64, args []string) error {
 		r := root.Fork(uint64(5000000 + wi))
 		t := genC18Tree(r)
 		mods := genC18Modules(r, t)
+		// dofile("<path>.lua") references (resolved by exact path first, then by suffix match)
+		for k := r.Intn(3); k > 0; k-- {
+			f := t.files[r.Intn(len(t.files))]
+			if !strings.HasSuffix(f, ".lua") || strings.Count(filepath.Base(f), ".") > 1 {
+				continue
+			}
+			comps := strings.Split(f, "/")
+			keep := 1 + r.Intn(len(comps))
+			p := strings.Join(comps[len(comps)-keep:], "/")
+			if r.Chance(1, 5) {
+				p = "zz" + p
+			}
+			mods = append(mods, "dofile:"+p)
+		}
 		base := lib.ScratchDir(fmt.Sprintf("c18w%d", wi))
 		dir := base
 		if r.Chance(1, 3) {
@@ -202,6 +216,10 @@ func runC18(res *lib.Result, tier string, seed int64, args []string) error {
 		}
 		var main []string
 		for i, m := range mods {
+			if strings.HasPrefix(m, "dofile:") {
+				main = append(main, fmt.Sprintf("dofile(\"%s\")", strings.TrimPrefix(m, "dofile:")), fmt.Sprintf("print(%d)", i))
+				continue
+			}
 			if r.Chance(1, 4) {
 				main = append(main, fmt.Sprintf("local m%d = require \"%s\"", i, m))
 			} else {
@@ -253,20 +271,57 @@ func runC18(res *lib.Result, tier string, seed int64, args []string) error {
 				return o, err
 			}
 			wl := main[2*i+1]
-			locs, err = sess.Definition(t.cur, 2*i+1, strings.Index(wl, "who"))
-			if err != nil {
-				return o, err
-			}
-			if len(locs) > 0 && sess.Rel(locs[0].URI) != t.cur {
-				o.defWho = sess.Rel(locs[0].URI)
+			if k := strings.Index(wl, "who"); k >= 0 {
+				locs, err = sess.Definition(t.cur, 2*i+1, k)
+				if err != nil {
+					return o, err
+				}
+				if len(locs) > 0 && sess.Rel(locs[0].URI) != t.cur {
+					o.defWho = sess.Rel(locs[0].URI)
+				}
 			}
 			return o, nil
 		}
-		var missing, resolved []int
+		var missing, resolved, resolvedDofile []int
 		allFiles := append([]string{}, t.files...)
 		// checkLine compares the answers for require line i with model and spec over the current file set
 		checkLine := func(i int, label string) {
 			m := mods[i]
+			if strings.HasPrefix(m, "dofile:") {
+				p := strings.TrimPrefix(m, "dofile:")
+				caseText := fmt.Sprintf("%sdofile(%q) at line %d\n%s", label, p, 2*i, treeText)
+				lib.Breadcrumb("C18 " + caseText)
+				ans, err := drv.Ask("modbest " + hexArgs(append([]string{dir, t.cur, p}, luaFiles...)...))
+				if err != nil {
+					res.AddViolation("crash-or-timeout", err.Error(), caseText, false)
+					return
+				}
+				var B []string
+				if b := strings.TrimPrefix(ans, "B="); b != "" {
+					B = strings.Split(b, "|")
+				}
+				exact := inList(luaFiles, p)
+				o, err := observe(i)
+				if err != nil {
+					res.AddViolation("crash-or-timeout", err.Error(), caseText, false)
+					return
+				}
+				res.Count(fmt.Sprintf("d|%s|%s|%s|%s", label, strings.Join(allFiles, ","), t.cur, p), exact || len(B) > 0)
+				res.Dist("e2e.dofile")
+				var mm []string
+				if o.diag6 != (!exact && len(B) == 0) {
+					mm = append(mm, fmt.Sprintf("type-6 diagnostic %v, exact file exists %v, suffix candidates %v", o.diag6, exact, B))
+				}
+				if (o.defStr == "") != (len(B) == 0) || (o.defStr != "" && !inList(B, o.defStr)) {
+					mm = append(mm, fmt.Sprintf("definition on the string leads to %q, candidates %v", o.defStr, B))
+				}
+				if len(mm) > 0 {
+					res.AddViolation("impl-vs-model", strings.Join(mm, "; "), caseText, label == "")
+				} else if label == "" && exact && len(B) == 1 && B[0] == p {
+					resolvedDofile = append(resolvedDofile, i)
+				}
+				return
+			}
 			caseText := fmt.Sprintf("%srequire(%q) at line %d\n%s", label, m, 2*i, treeText)
 			lib.Breadcrumb("C18 " + caseText)
 			ans, err := drv.Ask("modres " + hexArgs(append([]string{dir, t.cur, m}, luaFiles...)...))
@@ -361,7 +416,7 @@ func runC18(res *lib.Result, tier string, seed int64, args []string) error {
 		// ---------------- creation / deletion: every line is re-checked over the new file set ----------------
 		if len(missing) > 0 {
 			i := missing[r.Intn(len(missing))]
-			newRel := strings.ReplaceAll(mods[i], ".", "/") + ".lua"
+			newRel := strings.ReplaceAll(mods[i], ".", "/") + ".lua" // (missing only holds require lines)
 			if err := lib.WriteWorkspace(dir, map[string]string{newRel: "local M = {}\nM.who = 99\nreturn M\n"}); err != nil {
 				return err
 			}
@@ -394,6 +449,31 @@ func runC18(res *lib.Result, tier string, seed int64, args []string) error {
 				res.Dist("dynamic.delete")
 				for j := range mods {
 					checkLine(j, fmt.Sprintf("after deleting %s (didChangeWatchedFiles): ", o0.defWho))
+				}
+			}
+		}
+		if len(resolvedDofile) > 0 {
+			i := resolvedDofile[r.Intn(len(resolvedDofile))]
+			victim := strings.TrimPrefix(mods[i], "dofile:")
+			if inList(luaFiles, victim) {
+				os.Remove(filepath.Join(dir, victim))
+				sess.Watched(map[string]int{victim: 3})
+				sess.Sync()
+				var lf, af []string
+				for _, f := range luaFiles {
+					if f != victim {
+						lf = append(lf, f)
+					}
+				}
+				for _, f := range allFiles {
+					if f != victim {
+						af = append(af, f)
+					}
+				}
+				luaFiles, allFiles = lf, af
+				res.Dist("dynamic.delete-dofile")
+				for j := range mods {
+					checkLine(j, fmt.Sprintf("after deleting %s (didChangeWatchedFiles): ", victim))
 				}
 			}
 		}
